@@ -198,6 +198,51 @@ func runC01(c *ctx) {
 		}
 	}
 
+	// 1d. arrays nested in arrays (three and four deep from the step's point of view): a name step flattens ALL of them —
+	//     systematic nestings of one or two items per level over leaves {"b":1} {"b":2} {"b":[3,4]} {"c":9}
+	leafObjs := []interface{}{map[string]interface{}{"b": 1.0}, map[string]interface{}{"b": 2.0}, map[string]interface{}{"b": []interface{}{3.0, 4.0}}, map[string]interface{}{"c": 9.0}}
+	var lvl [][]interface{}
+	var l0 []interface{}
+	for _, x := range leafObjs {
+		l0 = append(l0, []interface{}{x})
+		for _, y := range leafObjs[:3] {
+			l0 = append(l0, []interface{}{x, y})
+		}
+	}
+	lvl = append(lvl, l0)
+	for d := 1; d <= 3; d++ {
+		prev := lvl[d-1]
+		var cur []interface{}
+		for i, x := range prev {
+			cur = append(cur, []interface{}{x})
+			// pairs: with another nesting of the same level, and with a bare object next to it
+			cur = append(cur, []interface{}{x, prev[(i*7+3)%len(prev)]})
+			cur = append(cur, []interface{}{x, leafObjs[i%3]})
+			if i%2 == 0 {
+				cur = append(cur, []interface{}{leafObjs[(i+1)%3], x})
+			}
+		}
+		stride := 1 + len(cur)/c.scale(60, 400)
+		var kept []interface{}
+		for i := 0; i < len(cur); i += stride {
+			kept = append(kept, cur[i])
+		}
+		lvl = append(lvl, kept)
+	}
+	nestCount := 0
+	for d := 0; d <= 3; d++ {
+		for _, x := range lvl[d] {
+			nestCount++
+			doc := map[string]interface{}{"a": x}
+			for _, p := range []string{"a.b", "a.b[]", "$.a.b", "(a).b", "a.b.$", "a[0].b", "a.*", "$count(a.b)"} {
+				c.diffEval(p, doc, "deep-nesting")
+			}
+			c.diffEval("b", x, "deep-nesting")
+			c.diffEval("$.b", x, "deep-nesting")
+		}
+	}
+	c.rep.Exhaustive = append(c.rep.Exhaustive, fmt.Sprintf("%d systematic nestings of arrays in arrays (1..5 levels, one or two items per level) x 10 name paths", nestCount))
+
 	// 2. the witnesses named in the property text and corpus seeds
 	seeds := []struct {
 		p string
